@@ -1327,6 +1327,31 @@ func (vc *VC) instancesByMatching(goal string, already []string, sks []string, n
 					}
 				}
 			}
+			// an ite among the summands of an index: one variant of the index per branch
+			if sum := vc.flattenSum(ground[k], 0); len(sum) > 1 {
+				for si, sm := range sum {
+					d := sm
+					if dd, ok := vc.defTerm[sm]; ok {
+						d = dd
+					}
+					if !strings.HasPrefix(d, "(ite ") {
+						continue
+					}
+					a := sexprArgs(d)
+					if len(a) != 3 {
+						continue
+					}
+					for _, br := range a[1:] {
+						parts := append([]string(nil), sum...)
+						parts[si] = br
+						alt := "(+ " + strings.Join(parts, " ") + ")"
+						if !gseen[alt] && len(alt) < 300 {
+							gseen[alt] = true
+							ground = append(ground, alt)
+						}
+					}
+				}
+			}
 		}
 		var next []string
 		for _, g := range ground {
